@@ -100,7 +100,7 @@ def real_case(draw, max_tasks=6):
     cancels = draw(st.lists(st.tuples(st.integers(0, n - 1), st.sampled_from([0, 50, 200, 400])), max_size=2))
     if draw(st.booleans()):
         # a long-running victim with a grand-child, cancelled while it certainly runs (when a core is free)
-        tasks.append({"deps": [], "rc": 0, "sleep_ms": 900, "out_bytes": 0, "grandchild": draw(st.booleans())})
+        tasks.append({"deps": [], "rc": 0, "sleep_ms": 2500, "out_bytes": 0, "grandchild": draw(st.booleans())})
         tasks[0], tasks[-1] = tasks[-1], tasks[0]
         for t in tasks:
             t["deps"] = [d for d in t["deps"] if d != 0 and d != len(tasks) - 1]
@@ -150,13 +150,16 @@ def run_real(case):
                 submissions[n_] = submissions.get(n_, 0) + 1
             t0 = time.monotonic()
             cancelled = set()
+            cancel_ns, cancel_out = {}, {}
             for idx, after in sorted(case["cancels"], key=lambda c: c[1]):
                 dt = after / 1000 - (time.monotonic() - t0)
                 if dt > 0:
                     time.sleep(dt)
                 rc = proj.gwf(["cancel", names[idx]])
+                cancel_ns[idx] = time.time_ns()
                 if rc.crashed:
                     v("C17", "local-cancel-crashed", rc.brief())
+                cancel_out[idx] = rc.out + rc.err
                 cancelled.add(idx)
                 labels.add("cancel")
             if case["second_wave"]:
@@ -251,6 +254,15 @@ def run_real(case):
                             v("C13", "log-incomplete", f"{n}{ext}: {None if got is None else len(got)} bytes logged, the process wrote {len(want)}", stream=ext)
                     if t["out_bytes"] >= 100000:
                         labels.add("output-above-pipe-buffer")
+            # ---- C17: a cancel that reached a certainly-running task must stop it
+            for i in sorted(cancelled):
+                n = names[i]
+                if n in start and n in end and i in cancel_ns:
+                    if start[n] < cancel_ns[i] - 150_000_000 and end[n] > cancel_ns[i] + 1_200_000_000:
+                        v("C17", "cancel-ignored",
+                          f"{n} was running when `gwf cancel {n}` returned, yet it ran on to its end "
+                          f"{(end[n] - cancel_ns[i]) / 1e9:.1f}s later; cancel said: {cancel_out.get(i, '')[-160:]!r}")
+                        v("C13", "cancel-ignored", f"{n} kept running after it had been cancelled")
             # ---- C13: nothing of a cancelled task keeps running
             if cancelled:
                 deadline = time.monotonic() + 15
